@@ -33,6 +33,7 @@ def dispatch (op : String) : Option (List String → String) :=
   | "c05" => some c05Op
   | "c06" => some c06Op
   | "lit" => some litOp
+  | "findapi" => some findApiOp
   | "c07r" => some c07rOp
   | "c08" => some c08Op
   | "c09" => some c09Op
